@@ -405,9 +405,10 @@ class Cube(object):
             return homogeneous_matrix(self.affine(), self.center())
         assert axes is Axes.WORLD
         assert to_axes is Axes.CUBE
+        cube = self if to_cube is None else to_cube
         if vectors:
-            return self.inverse_affine()
-        return hmm(self.inverse_affine(), -self.center())
+            return cube.inverse_affine()
+        return hmm(cube.inverse_affine(), -cube.center())
 
     def inverse_transform(self, vectors: bool = False) -> Tensor:
         r"""Transform which maps from world to cube space."""
